@@ -1,4 +1,6 @@
 import Fv.Lemmas.Mpmc2BSafeStep
+import Fv.Lemmas.Mpmc2BWakeA
+import Fv.Lemmas.Mpmc2BWakeW
 /-!
 # mpmc bounded v2 — B-model theorems (feed C01, C02, C03, C05, C06)
 
@@ -136,6 +138,388 @@ theorem mpmc2_disconnected_means_drained {cap s} (hr : Reach cap s) {t : Nat}
         all_goals simp at hs
   exact ⟨hq, by rw [mpmc2_linearised hr, hq]; simp⟩
 
+/-! ## Wake-ups (C05 / C06), proved for runs satisfying `Benign` at every step:
+no future is dropped between being woken and its next poll (F2), and a `RecvFuture` is polled again
+only after its state byte left WAITING (F17). Blocking (thread) operations need no hypothesis of
+their own; the hypothesis only restricts the environment labels `poll` / `dropFut`. -/
+
+/-- **Q1** (DESIGN A.5): while some receiver record is still WAITING, every buffered item is matched
+by a distinct receiver that was CASed to SUCCESS and woken in the same locked section and has not
+yet re-entered `try_recv_core` (it is at a wait / pending / retry control state of that record). -/
+theorem mpmc2_Q1 {cap s} (h : ReachB cap s) {r : Nat} (hr : r ∈ s.wsr ∨ r ∈ s.war) (hw : s.st r = .waiting) :
+    s.queue.length ≤ s.ar.length ∧ s.ar.Nodup ∧
+    ∀ r', r' ∈ s.ar → s.st r' = .success ∧ wokenRecv (s.pc (s.owner r')) = some r' :=
+  have hA := invA_reach h
+  ⟨hA.q1 r hr hw, hA.a2, hA.a1⟩
+
+/-- **Q2** mirror image for senders: while some sender record is WAITING, every free slot is matched by
+a distinct woken sender that has not yet re-entered `try_send_core`. -/
+theorem mpmc2_Q2 {cap s} (h : ReachB cap s) {r : Nat} (hr : r ∈ s.wss ∨ r ∈ s.was) (hw : s.st r = .waiting) :
+    cap - s.queue.length ≤ s.asg.length ∧ s.asg.Nodup ∧
+    ∀ r', r' ∈ s.asg → s.st r' = .success ∧ wokenSend (s.pc (s.owner r')) = some r' := by
+  have hA := invA_reach h
+  have := hA.q2 r hr hw
+  rw [reach_cap h.reach] at this
+  exact ⟨this, hA.b2, hA.b1⟩
+
+/-- A blocked thread / Pending task whose waiter state is still WAITING is enqueued (so Q1 / Q2 speak
+about it), and no such record exists once the other side is gone. -/
+theorem mpmc2_waiting_is_registered {cap s} (h : ReachB cap s) :
+    (∀ t r, blockR (s.pc t) = some r → s.st r = .waiting → (r ∈ s.wsr ∨ r ∈ s.war) ∧ s.senders ≠ 0) ∧
+    (∀ t r, blockS (s.pc t) = some r → s.st r = .waiting → (r ∈ s.wss ∨ r ∈ s.was) ∧ s.receivers ≠ 0) := by
+  have hR := invR_reach h
+  refine ⟨fun t r hb hw => ?_, fun t r hb hw => ?_⟩
+  · have hm := hR.k4r t r hb hw
+    exact ⟨hm, fun h0 => hR.d1 h0 r hm hw⟩
+  · have hm := hR.k4s t r hb hw
+    exact ⟨hm, fun h0 => hR.d2 h0 r hm hw⟩
+
+/-- **Wake delivery** (C05 park level / C06 waker level): an agent parked or Pending on a record whose
+state byte is already terminal (SUCCESS or CLOSED) has a park token / a counted wake, or a closing
+thread that has already left the lock still holds that wake in its `to_wake` list. -/
+theorem mpmc2_wake_owed {cap s} (h : ReachB cap s) {t r : Nat} (hw : waitish (s.pc t) = some r)
+    (hf : s.st r = .success ∨ s.st r = .closed) : 0 < s.wakes t ∨ t ∈ wl (s.pc (s.wakeBy r)) := by
+  by_cases h0 : s.wakes t = 0
+  · exact Or.inr ((invW_reach h).k3 t r hw hf h0)
+  · exact Or.inl (Nat.pos_of_ne_zero h0)
+
+/-- an agent that can take a protocol step by itself, or a Pending task that has been woken
+(an executor that polls woken tasks will poll it) -/
+def Runnable (s : State) (u : Nat) : Prop :=
+  (stepAdv s u).isSome = true ∨ (∃ r, waitish (s.pc u) = some r ∧ 0 < s.wakes u)
+
+theorem hWake_runnable {s : State} {c t : Nat} (h : t ∈ wl (s.pc c)) : Runnable s c := by
+  left
+  cases hp : s.pc c <;> simp [hp, wl] at h
+  simp [stepAdv, hp]
+
+theorem woken_recv_runnable {cap s} (h : ReachB cap s) {r : Nat} (hr : r ∈ s.ar) : ∃ u, Runnable s u := by
+  have ⟨hs, hw⟩ := (invA_reach h).a1 r hr
+  by_cases h0 : s.wakes (s.owner r) = 0
+  · cases hp : s.pc (s.owner r) <;> simp [hp, wokenRecv] at hw
+    case rWait r' => exact ⟨s.owner r, Or.inl (by simp [stepAdv, hp])⟩
+    case rTry r' => exact ⟨s.owner r, Or.inl (by simp [stepAdv, hp])⟩
+    case toCas r' => exact ⟨s.owner r, Or.inl (by simp [stepAdv, hp])⟩
+    case toFin r' => exact ⟨s.owner r, Or.inl (by simp [stepAdv, hp])⟩
+    case arTry r' => exact ⟨s.owner r, Or.inl (by simp [stepAdv, hp])⟩
+    case rPark r' =>
+      subst hw
+      exact ⟨_, hWake_runnable ((invW_reach h).k3 (s.owner r') r' (by simp [hp, waitish]) (Or.inl hs) h0)⟩
+    case arPend r' =>
+      subst hw
+      exact ⟨_, hWake_runnable ((invW_reach h).k3 (s.owner r') r' (by simp [hp, waitish]) (Or.inl hs) h0)⟩
+  · have hpos := Nat.pos_of_ne_zero h0
+    cases hp : s.pc (s.owner r) <;> simp [hp, wokenRecv] at hw
+    case rWait r' => exact ⟨s.owner r, Or.inl (by simp [stepAdv, hp])⟩
+    case rTry r' => exact ⟨s.owner r, Or.inl (by simp [stepAdv, hp])⟩
+    case toCas r' => exact ⟨s.owner r, Or.inl (by simp [stepAdv, hp])⟩
+    case toFin r' => exact ⟨s.owner r, Or.inl (by simp [stepAdv, hp])⟩
+    case arTry r' => exact ⟨s.owner r, Or.inl (by simp [stepAdv, hp])⟩
+    case rPark r' => exact ⟨s.owner r, Or.inl (by simp [stepAdv, hp, stepRPark, hpos])⟩
+    case arPend r' => exact ⟨s.owner r, Or.inr ⟨r', by simp [hp, waitish], hpos⟩⟩
+
+theorem woken_send_runnable {cap s} (h : ReachB cap s) {r : Nat} (hr : r ∈ s.asg) : ∃ u, Runnable s u := by
+  have ⟨hs, hw⟩ := (invA_reach h).b1 r hr
+  by_cases h0 : s.wakes (s.owner r) = 0
+  · cases hp : s.pc (s.owner r) <;> simp [hp, wokenSend] at hw
+    case sWait v' r' => exact ⟨s.owner r, Or.inl (by simp [stepAdv, hp])⟩
+    case sTry v' r' => exact ⟨s.owner r, Or.inl (by simp [stepAdv, hp])⟩
+    case sUnl v' r' c' => exact ⟨s.owner r, Or.inl (by simp [stepAdv, hp])⟩
+    case asUnl v' r' c' => exact ⟨s.owner r, Or.inl (by simp [stepAdv, hp])⟩
+    case asTry v' r' => exact ⟨s.owner r, Or.inl (by simp [stepAdv, hp])⟩
+    case asRef v' r' => exact ⟨s.owner r, Or.inl (by simp [stepAdv, hp])⟩
+    case sPark v' r' =>
+      subst hw
+      exact ⟨_, hWake_runnable ((invW_reach h).k3 (s.owner r') r' (by simp [hp, waitish]) (Or.inl hs) h0)⟩
+    case asPend v' r' =>
+      subst hw
+      exact ⟨_, hWake_runnable ((invW_reach h).k3 (s.owner r') r' (by simp [hp, waitish]) (Or.inl hs) h0)⟩
+  · have hpos := Nat.pos_of_ne_zero h0
+    cases hp : s.pc (s.owner r) <;> simp [hp, wokenSend] at hw
+    case sWait v' r' => exact ⟨s.owner r, Or.inl (by simp [stepAdv, hp])⟩
+    case sTry v' r' => exact ⟨s.owner r, Or.inl (by simp [stepAdv, hp])⟩
+    case sUnl v' r' c' => exact ⟨s.owner r, Or.inl (by simp [stepAdv, hp])⟩
+    case asUnl v' r' c' => exact ⟨s.owner r, Or.inl (by simp [stepAdv, hp])⟩
+    case asTry v' r' => exact ⟨s.owner r, Or.inl (by simp [stepAdv, hp])⟩
+    case asRef v' r' => exact ⟨s.owner r, Or.inl (by simp [stepAdv, hp])⟩
+    case sPark v' r' => exact ⟨s.owner r, Or.inl (by simp [stepAdv, hp, stepSPark, hpos])⟩
+    case asPend v' r' => exact ⟨s.owner r, Or.inr ⟨r', by simp [hp, waitish], hpos⟩⟩
+
+/-- **C05 / C06 no lost wakeup, receivers** (safety form): if a thread is parked in `recv` without a
+token, or a `RecvFuture` is Pending without a counted wake, while an item is buffered or every sender is
+gone, then some agent is runnable whose remaining straight-line steps deliver the wake or consume the
+item. Hence no quiescent state leaves a receiver asleep while its operation is possible. -/
+theorem mpmc2_no_lost_wakeup_recv {cap s} (h : ReachB cap s) {t r : Nat}
+    (hb : s.pc t = .rPark r ∨ s.pc t = .arPend r) (h0 : s.wakes t = 0)
+    (hen : s.queue ≠ [] ∨ s.senders = 0) : ∃ u, Runnable s u := by
+  have hW := invW_reach h
+  have hK := invK_reach h.reach
+  have hwt : waitish (s.pc t) = some r := by rcases hb with hb | hb <;> simp [hb, waitish]
+  have hbr : blockR (s.pc t) = some r := by rcases hb with hb | hb <;> simp [hb, blockR]
+  cases hst : s.st r with
+  | success => exact ⟨_, hWake_runnable (hW.k3 t r hwt (Or.inl hst) h0)⟩
+  | closed => exact ⟨_, hWake_runnable (hW.k3 t r hwt (Or.inr hst) h0)⟩
+  | cancelled =>
+    rcases hb with hb | hb
+    · exact absurd hst (hW.k5 t r (by simp [hb, liveWait]))
+    · exact absurd hst (hK.not_canc t r (by simp [hb, recvFutRec]))
+  | waiting =>
+    have ⟨hm, hs0⟩ := (mpmc2_waiting_is_registered h).1 t r hbr hst
+    rcases hen with hq | hs
+    · have hq1 := (invA_reach h).q1 r hm hst
+      cases har : s.ar with
+      | nil => rw [har] at hq1; simp at hq1; exact absurd hq1 hq
+      | cons a rest => exact woken_recv_runnable h (r := a) (by rw [har]; simp)
+    · exact absurd hs hs0
+
+/-- **C05 / C06 no lost wakeup, senders**: same for a thread parked in `send` / a Pending `SendFuture`
+while the buffer has a free slot or every receiver is gone. -/
+theorem mpmc2_no_lost_wakeup_send {cap s} (h : ReachB cap s) {t v r : Nat}
+    (hb : s.pc t = .sPark v r ∨ s.pc t = .asPend v r) (h0 : s.wakes t = 0)
+    (hen : s.queue.length < cap ∨ s.receivers = 0) : ∃ u, Runnable s u := by
+  have hW := invW_reach h
+  have hwt : waitish (s.pc t) = some r := by rcases hb with hb | hb <;> simp [hb, waitish]
+  have hbr : blockS (s.pc t) = some r := by rcases hb with hb | hb <;> simp [hb, blockS]
+  cases hst : s.st r with
+  | success => exact ⟨_, hWake_runnable (hW.k3 t r hwt (Or.inl hst) h0)⟩
+  | closed => exact ⟨_, hWake_runnable (hW.k3 t r hwt (Or.inr hst) h0)⟩
+  | cancelled =>
+    exact absurd hst (hW.k5 t r (by rcases hb with hb | hb <;> simp [hb, liveWait]))
+  | waiting =>
+    have ⟨hm, hs0⟩ := (mpmc2_waiting_is_registered h).2 t r hbr hst
+    rcases hen with hq | hs
+    · have hq2 := (mpmc2_Q2 h hm hst).1
+      cases har : s.asg with
+      | nil => rw [har] at hq2; simp at hq2; omega
+      | cons a rest => exact woken_send_runnable h (r := a) (by rw [har]; simp)
+    · exact absurd hs hs0
+
+/-- **C05 deadlock freedom / C06 executor never stalls** (corollary): in a quiescent state — no agent can
+take a protocol step and no Pending task has an unconsumed wake — nobody sleeps while its operation is
+possible: parked receivers / Pending recv futures see an empty buffer with a live sender, parked senders /
+Pending send futures see a full buffer with a live receiver. -/
+theorem mpmc2_quiescent_nobody_stuck {cap s} (h : ReachB cap s) (hq : ∀ u, ¬ Runnable s u) :
+    (∀ t r, (s.pc t = .rPark r ∨ s.pc t = .arPend r) → s.queue = [] ∧ s.senders ≠ 0) ∧
+    (∀ t v r, (s.pc t = .sPark v r ∨ s.pc t = .asPend v r) → cap ≤ s.queue.length ∧ s.receivers ≠ 0) := by
+  refine ⟨fun t r hb => ?_, fun t v r hb => ?_⟩
+  · have h0 : s.wakes t = 0 := by
+      cases hw : s.wakes t with
+      | zero => rfl
+      | succ n =>
+        exfalso; apply hq t
+        rcases hb with hb | hb
+        · exact Or.inl (by simp [stepAdv, hb, stepRPark, hw])
+        · exact Or.inr ⟨r, by simp [hb, waitish], by omega⟩
+    refine ⟨?_, ?_⟩
+    · cases hqq : s.queue with
+      | nil => rfl
+      | cons a q =>
+        obtain ⟨u, hu⟩ := mpmc2_no_lost_wakeup_recv h hb h0 (Or.inl (by simp [hqq]))
+        exact absurd hu (hq u)
+    · intro hs
+      obtain ⟨u, hu⟩ := mpmc2_no_lost_wakeup_recv h hb h0 (Or.inr hs)
+      exact absurd hu (hq u)
+  · have h0 : s.wakes t = 0 := by
+      cases hw : s.wakes t with
+      | zero => rfl
+      | succ n =>
+        exfalso; apply hq t
+        rcases hb with hb | hb
+        · exact Or.inl (by simp [stepAdv, hb, stepSPark, hw])
+        · exact Or.inr ⟨r, by simp [hb, waitish], by omega⟩
+    refine ⟨?_, ?_⟩
+    · apply Nat.le_of_not_lt
+      intro hlt
+      obtain ⟨u, hu⟩ := mpmc2_no_lost_wakeup_send h hb h0 (Or.inl hlt)
+      exact absurd hu (hq u)
+    · intro hs
+      obtain ⟨u, hu⟩ := mpmc2_no_lost_wakeup_send h hb h0 (Or.inr hs)
+      exact absurd hu (hq u)
+
+/-! ## What is false of the code today (witnesses by `decide`) -/
+
+/-- Full C06 wake statement for receive futures: a Pending `RecvFuture` whose record is still
+WAITING while an item is buffered is covered by a woken receiver that is still going to consume it.
+FALSE on every reachable state of the code as it stands (F2, F17); true on `ReachB` (`…_partial`). -/
+def C06_mpmc2_recv_statement : Prop :=
+  ∀ cap s, Reach cap s → ∀ t r, s.pc t = .arPend r → s.st r = .waiting → s.queue ≠ [] →
+    ∃ r', r' ∈ s.ar ∧ wokenRecv (s.pc (s.owner r')) = some r'
+
+def C06_mpmc2_send_statement : Prop :=
+  ∀ cap s, Reach cap s → ∀ t v r, s.pc t = .asPend v r → s.st r = .waiting → s.queue.length < cap →
+    ∃ r', r' ∈ s.asg ∧ wokenSend (s.pc (s.owner r')) = some r'
+
+theorem C06_mpmc2_recv_partial {cap s} (h : ReachB cap s) {t r : Nat} (hp : s.pc t = .arPend r)
+    (hw : s.st r = .waiting) (hq : s.queue ≠ []) : ∃ r', r' ∈ s.ar ∧ wokenRecv (s.pc (s.owner r')) = some r' := by
+  have ⟨hm, _⟩ := (mpmc2_waiting_is_registered h).1 t r (by simp [hp, blockR]) hw
+  have ⟨hl, _, ha⟩ := mpmc2_Q1 h hm hw
+  cases har : s.ar with
+  | nil => rw [har] at hl; simp at hl; exact absurd hl hq
+  | cons a rest => exact ⟨a, by simp, (ha a (by rw [har]; simp)).2⟩
+
+theorem C06_mpmc2_send_partial {cap s} (h : ReachB cap s) {t v r : Nat} (hp : s.pc t = .asPend v r)
+    (hw : s.st r = .waiting) (hq : s.queue.length < cap) : ∃ r', r' ∈ s.asg ∧ wokenSend (s.pc (s.owner r')) = some r' := by
+  have ⟨hm, _⟩ := (mpmc2_waiting_is_registered h).2 t r (by simp [hp, blockS]) hw
+  have ⟨hl, _, ha⟩ := mpmc2_Q2 h hm hw
+  cases har : s.asg with
+  | nil => rw [har] at hl; simp at hl; omega
+  | cons a rest => exact ⟨a, by simp, (ha a (by rw [har]; simp)).2⟩
+
+/-- all agents of a finite list are stuck: no protocol step enabled, and no Pending task has a wake -/
+def stuck (s : State) (agents : List Nat) : Bool :=
+  agents.all (fun a => (stepAdv s a).isNone && ((waitish (s.pc a)).isNone || s.wakes a == 0))
+
+/-- **F2 (receive side)**: tasks 1 and 2 are Pending in `recv()`; `try_send(7)` CASes task 1 to SUCCESS
+and wakes it; task 1 is dropped before it is polled (`Drop`: the cancel CAS fails, the future just
+unlinks). The wake is swallowed: task 2 stays Pending with zero wakes while 7 sits in the buffer and
+nothing in the system can move. -/
+def trF2recv : List (Nat × Label) :=
+  [(1, .call .recvFut), (1, .poll), (1, .adv), (1, .adv),
+   (2, .call .recvFut), (2, .poll), (2, .adv), (2, .adv),
+   (0, .call (.trySend 7)), (0, .adv),
+   (1, .dropFut), (1, .adv)]
+
+theorem F2_recv_run_a : (run (init 2) trF2recv).map (fun s => (s.pc 2, s.st 1, s.wakes 2)) =
+    some (.arPend 1, .waiting, 0) := by decide
+theorem F2_recv_run_b : (run (init 2) trF2recv).map (fun s => (s.queue, s.ar, s.pc (s.owner 0))) =
+    some ([7], [0], .done .futDropped) := by decide
+theorem F2_recv_run_c : (run (init 2) trF2recv).map (fun s => stuck s [0, 1, 2]) = some true := by decide
+
+theorem C06_fails_F2_mpmc2_recv : ¬ C06_mpmc2_recv_statement := by
+  intro hC
+  cases hr : run (init 2) trF2recv with
+  | none => exact absurd hr (by decide)
+  | some s =>
+    have ha := F2_recv_run_a; have hb := F2_recv_run_b
+    rw [hr] at ha hb; simp at ha hb
+    obtain ⟨r', hm, hw⟩ := hC 2 s (reach_of_run _ _ s .init hr) 2 1 ha.1 ha.2.1 (by simp [hb.1])
+    rw [hb.2.1] at hm; simp at hm; subst hm
+    rw [hb.2.2] at hw; simp [wokenRecv] at hw
+
+/-- **F2 (send side)**: capacity 1, buffer full; tasks 1 and 2 are Pending in `send()`; `try_recv` frees the
+slot and wakes task 1, which is dropped before its poll. Task 2 stays Pending, un-woken, with a free slot. -/
+def trF2send : List (Nat × Label) :=
+  [(0, .call (.trySend 7)), (0, .adv),
+   (1, .call (.sendFut 8)), (1, .poll), (1, .adv), (1, .adv),
+   (2, .call (.sendFut 9)), (2, .poll), (2, .adv), (2, .adv),
+   (0, .call .tryRecv), (0, .adv),
+   (1, .dropFut), (1, .adv)]
+
+theorem F2_send_run_a : (run (init 1) trF2send).map (fun s => (s.pc 2, s.st 1, s.wakes 2)) =
+    some (.asPend 9 1, .waiting, 0) := by decide
+theorem F2_send_run_b : (run (init 1) trF2send).map (fun s => (s.queue, s.asg, s.pc (s.owner 0))) =
+    some ([], [0], .done .futDropped) := by decide
+theorem F2_send_run_c : (run (init 1) trF2send).map (fun s => stuck s [0, 1, 2]) = some true := by decide
+
+theorem C06_fails_F2_mpmc2_send : ¬ C06_mpmc2_send_statement := by
+  intro hC
+  cases hr : run (init 1) trF2send with
+  | none => exact absurd hr (by decide)
+  | some s =>
+    have ha := F2_send_run_a; have hb := F2_send_run_b
+    rw [hr] at ha hb; simp at ha hb
+    obtain ⟨r', hm, hw⟩ := hC 1 s (reach_of_run _ _ s .init hr) 2 9 1 ha.1 ha.2.1 (by simp [hb.1])
+    rw [hb.2.1] at hm; simp at hm; subst hm
+    rw [hb.2.2] at hw; simp [wokenSend] at hw
+
+/-- **F17 (new)**: no future is dropped at all. Tasks 1 and 2 are Pending in `recv()`; `try_send(7)` wakes
+task 1; task 2 is re-polled although it was not woken (`select!` / `join!` do that): `poll_recv_internal`
+runs `try_recv_core` first, steals 7 and returns Ready — leaving its WAITING record in the queue. Task 1 is
+polled, finds nothing, re-registers behind the stale record. `try_send(8)` then CASes the stale record and
+wakes the finished task 2: task 1 is Pending, un-woken, with 8 buffered. -/
+def trF17 : List (Nat × Label) :=
+  [(1, .call .recvFut), (1, .poll), (1, .adv), (1, .adv),
+   (2, .call .recvFut), (2, .poll), (2, .adv), (2, .adv),
+   (0, .call (.trySend 7)), (0, .adv),
+   (2, .poll), (2, .adv),
+   (1, .poll), (1, .adv), (1, .adv),
+   (0, .call (.trySend 8)), (0, .adv)]
+
+theorem F17_run_a : (run (init 2) trF17).map (fun s => (s.pc 1, s.st 0, s.wakes 1)) =
+    some (.arPend 0, .waiting, 0) := by decide
+theorem F17_run_b : (run (init 2) trF17).map (fun s => (s.queue, s.ar, s.pc (s.owner 1))) =
+    some ([8], [1], .done (.recvOk 7)) := by decide
+theorem F17_run_c : (run (init 2) trF17).map (fun s => stuck s [0, 1, 2]) = some true := by decide
+
+theorem C06_fails_F17_mpmc2_spurious_repoll : ¬ C06_mpmc2_recv_statement := by
+  intro hC
+  cases hr : run (init 2) trF17 with
+  | none => exact absurd hr (by decide)
+  | some s =>
+    have ha := F17_run_a; have hb := F17_run_b
+    rw [hr] at ha hb; simp at ha hb
+    obtain ⟨r', hm, hw⟩ := hC 2 s (reach_of_run _ _ s .init hr) 1 0 ha.1 ha.2.1 (by simp [hb.1])
+    rw [hb.2.1] at hm; simp at hm; subst hm
+    rw [hb.2.2] at hw; simp [wokenRecv] at hw
+
+/-- Full C05 statement for the timed receive: `recv_timeout` always returns. FALSE (F5). -/
+def C05_mpmc2_timed_statement : Prop :=
+  ∀ cap s, Reach cap s → ∀ t, s.pc t ≠ .done .panicked
+
+/-- **F5**: thread 1 is enqueued in `recv_timeout(0)`; `try_send(7)` CASes it to SUCCESS; thread 2's
+`try_recv` barges in and takes 7; thread 1's cancel CAS fails ("a sender committed the handoff"), its final
+`try_recv_core` finds the buffer empty and hits `unreachable!("state was finished but channel empty")`. -/
+def trF5 : List (Nat × Label) :=
+  [(1, .call .recvTimeout0), (1, .adv), (1, .adv),
+   (0, .call (.trySend 7)), (0, .adv),
+   (2, .call .tryRecv), (2, .adv),
+   (1, .adv), (1, .adv)]
+
+theorem F5_run : (run (init 2) trF5).map (fun s => (s.pc 1, s.pc 2, s.pc 0)) =
+    some (.done .panicked, .done (.recvOk 7), .done (.sendOk 7)) := by decide
+
+theorem C05_fails_F5 : ¬ C05_mpmc2_timed_statement := by
+  intro hC
+  cases hr : run (init 2) trF5 with
+  | none => exact absurd hr (by decide)
+  | some s =>
+    have ha := F5_run
+    rw [hr] at ha; simp at ha
+    exact hC 2 s (reach_of_run _ _ s .init hr) 1 ha.1
+
+/-- the only way into the panic: the final `try_recv_core` of a timed receive whose cancel CAS lost,
+with an empty buffer and a live sender — i.e. its item was taken by a barging receiver. -/
+theorem C05_mpmc2_timed_partial {s s' : State} {t : Nat} {l : Label} (h : step s t l = some s')
+    (h0 : s.pc t ≠ .done .panicked) (h1 : s'.pc t = .done .panicked) :
+    ∃ r, s.pc t = .toFin r ∧ l = .adv ∧ s.queue = [] ∧ s.senders ≠ 0 := by
+  cases l <;> simp only [step] at h
+  case call op =>
+    unfold stepCall at h
+    repeat' split at h
+    all_goals (simp at h; try subst h)
+    all_goals simp [upd_apply] at h1
+  case poll =>
+    unfold stepPoll at h
+    repeat' split at h
+    all_goals (simp at h; try subst h)
+    all_goals simp [upd_apply] at h1
+  case dropFut =>
+    unfold stepDropFut at h
+    repeat' split at h
+    all_goals (simp at h; try subst h)
+    all_goals simp [upd_apply] at h1
+  case spurious =>
+    unfold stepSpurious at h
+    repeat' split at h
+    all_goals (simp at h; try subst h)
+    all_goals simp [upd_apply] at h1
+  case adv =>
+    unfold stepAdv at h
+    split at h
+    all_goals (first | (simp at h; done) | skip)
+    all_goals (try simp only [stepSTry, stepSReg, stepSWait, stepSPark, stepSUnl, stepTsTry, stepRTry, stepRReg, stepRWait,
+               stepRPark, stepRUnl, stepTrTry, stepToTry, stepToReg, stepToRetry, stepToCas, stepToUnl, stepToFin, stepAsTry,
+               stepAsReg, stepAsUnl, stepAsRef, stepFdUnlS, stepArTry, stepArReg, stepArUnl, stepFdUnlR, stepCloseS, stepCloseR,
+               stepHWake] at h)
+    all_goals (repeat' split at h)
+    all_goals (simp at h; try subst h)
+    all_goals (first
+      | (simp [upd_apply] at h1; done)
+      | (have e := sendCore_pc ‹sendCore _ _ = some _›; simp [upd_apply, e] at h1; done)
+      | (have e := recvCore_pc ‹recvCore _ = some _›; simp [upd_apply, e] at h1; done)
+      | (have hq := recvCore_none ‹recvCore _ = none›
+         exact ⟨_, ‹s.pc t = PC.toFin _›, rfl, hq, ‹¬ s.senders = 0›⟩))
+
 /-! ### non-vacuity -/
 
 /-- a reachable state with a full buffer of capacity 2, one token received, in FIFO order -/
@@ -153,6 +537,57 @@ example : ∃ s, Reach 2 s ∧ s.queue = [8, 9] ∧ s.recvd = [7] ∧ s.pc 0 = .
       rw [hr] at this; simpa using this
     · have : (run (init 2) tr).map (fun s => s.pc 0) = some (.done (.sendOk 9)) := by decide
       rw [hr] at this; simpa using this
+
+instance (s : State) (t : Nat) (l : Label) : Decidable (Benign s t l) := by
+  unfold Benign; split <;> infer_instance
+
+/-- run a schedule, checking the `Benign` hypothesis at every step -/
+def runB (s : State) : List (Nat × Label) → Option State
+  | [] => some s
+  | (t, l) :: rest => if Benign s t l then (step s t l).bind (fun s' => runB s' rest) else none
+
+theorem reachB_of_runB {cap : Nat} (tr : List (Nat × Label)) (s0 s : State) (h0 : ReachB cap s0)
+    (h : runB s0 tr = some s) : ReachB cap s := by
+  induction tr generalizing s0 with
+  | nil => simp [runB] at h; subst h; exact h0
+  | cons a rest ih =>
+    obtain ⟨t, l⟩ := a
+    simp only [runB] at h
+    split at h
+    · rename_i hb
+      simp only [Option.bind] at h
+      split at h
+      · simp at h
+      · rename_i s1 hs1; exact ih s1 (ReachB.step h0 hb hs1) h
+    · simp at h
+
+/-- non-vacuity of `mpmc2_no_lost_wakeup_recv` / `mpmc2_Q1`: two threads parked in `recv`, one item sent:
+thread 2 is parked without token on a WAITING record while 7 is buffered; the theorem's conclusion is
+witnessed by thread 1 (woken, token set). -/
+example : ∃ s, ReachB 2 s ∧ s.pc 2 = .rPark 3 ∧ s.wakes 2 = 0 ∧ s.st 3 = .waiting ∧ s.queue = [7] ∧ s.ar = [1] := by
+  let tr : List (Nat × Label) :=
+    [(1, .call .recv), (1, .adv), (1, .adv), (1, .adv), (2, .call .recv), (2, .adv), (2, .adv), (2, .adv),
+     (0, .call (.trySend 7)), (0, .adv)]
+  cases hr : runB (init 2) tr with
+  | none => exact absurd hr (by decide)
+  | some s =>
+    have h1 : (runB (init 2) tr).map (fun s => (s.pc 2, s.wakes 2, s.st 3)) = some (.rPark 3, 0, .waiting) := by decide
+    have h2 : (runB (init 2) tr).map (fun s => (s.queue, s.ar)) = some ([7], [1]) := by decide
+    rw [hr] at h1 h2; simp at h1 h2
+    exact ⟨s, reachB_of_runB tr _ s .init hr, h1.1, h1.2.1, h1.2.2, h2.1, h2.2⟩
+
+/-- non-vacuity of the sender side: capacity 1, a parked sender, then a `try_recv` frees the slot and wakes it -/
+example : ∃ s, ReachB 1 s ∧ s.pc 1 = .sPark 8 1 ∧ 0 < s.wakes 1 ∧ s.st 1 = .success ∧ s.queue = [] ∧ s.asg = [1] := by
+  let tr : List (Nat × Label) :=
+    [(0, .call (.trySend 7)), (0, .adv), (1, .call (.send 8)), (1, .adv), (1, .adv), (1, .adv),
+     (0, .call .tryRecv), (0, .adv)]
+  cases hr : runB (init 1) tr with
+  | none => exact absurd hr (by decide)
+  | some s =>
+    have h1 : (runB (init 1) tr).map (fun s => (s.pc 1, s.wakes 1, s.st 1)) = some (.sPark 8 1, 1, .success) := by decide
+    have h2 : (runB (init 1) tr).map (fun s => (s.queue, s.asg)) = some ([], [1]) := by decide
+    rw [hr] at h1 h2; simp at h1 h2
+    exact ⟨s, reachB_of_runB tr _ s .init hr, h1.1, by omega, h1.2.2, h2.1, h2.2⟩
 
 /-- a failed try_send on a full channel: the token comes back -/
 example : ((run (init 1) [(0, .call (.trySend 7)), (0, .adv), (0, .call (.trySend 8)), (0, .adv)]).map
